@@ -1353,6 +1353,14 @@ impl Config {
         insert(
             &mut res, "repository-dir", self.cache_dir.display().to_string()
         );
+        insert(&mut res, "no-rir-tals", self.no_rir_tals);
+        insert(
+            &mut res, "tals",
+            toml::Value::Array(
+                self.bundled_tals.iter()
+                    .map(|s| toml::Value::from(s.clone())).collect()
+            )
+        );
         if let Some(extra_tals_dir) = self.extra_tals_dir.as_ref() {
             insert(
                 &mut res, "extra-tals-dir",
